@@ -102,34 +102,88 @@ Definition hist := list (orec event out).
 Definition vol_nxt (st : vol) (ev : event) : vol := fst (step st ev).
 Definition vol_acc (st : vol) (ev : event) (o : out) : bool := out_eqb (snd (step st ev)) o.
 
-(* (b) the per-key register specification of C01: id -> (cookie, last written needle) *)
+(* (b) the per-key register specification of C01 with EVERY answer field (model/Volume.v,
+   xexpect / xmatch): id -> (cookie, last written needle).  Beyond the error class it fixes
+     write  : the "unchanged" acknowledgement and n.Size after the call
+     delete : the size returned = Size of the needle that was live, 0 when none was live
+              (so two deletes cannot both have removed the same needle)
+     read   : count and every field of the needle; not-found/deleted; rd=true is left open *)
 Definition reg_nxt (sp : spec) (ev : event) : spec := fst (spec_step sp ev).
-Definition reg_acc (sp : spec) (ev : event) (o : out) : bool := match_out (snd (spec_step sp ev)) o.
+Definition reg_acc (sp : spec) (ev : event) (o : out) : bool := xmatch (xexpect sp (fst ev) (snd ev)) (XO o).
+(* C01's first-round acceptance (error classes only); reg_acc implies it *)
+Definition reg_acc0 (sp : spec) (ev : event) (o : out) : bool := match_out (snd (spec_step sp ev)) o.
 
 (* a volume state agrees with a register state: every read of every key with every cookie
    at every time answers what the register specification expects *)
 Definition agrees (st : vol) (sp : spec) : Prop :=
-  forall id c t, match_out (snd (spec_step sp (t, RawRead id c false))) (snd (step st (t, RawRead id c false))) = true.
+  forall id c t, reg_acc sp (t, RawRead id c false) (snd (step st (t, RawRead id c false))) = true.
 
 (* the same on a finite list of reads made after the history: (id, cookie, what came back) *)
 Definition final_reads := list (N * N * out).
 Definition agrees_on (fr : final_reads) (sp : spec) : bool :=
-  forallb (fun x => let '(id, c, o) := x in match_out (snd (spec_step sp (0, RawRead id c false))) o) fr.
+  forallb (fun x => let '(id, c, o) := x in reg_acc sp (0, RawRead id c false) o) fr.
 
-(* final volume observables: .dat size and needle-map entry (offset, size) of some keys *)
+(* (c) the same specification PER KEY: the state also carries the keys a known finding of C01
+   has touched so far in this order (Volume.dirty_step: a write with an empty payload, finding 0;
+   a write repeating id+cookie+bytes of an earlier one with other metadata, finding 1; any call
+   on a key already touched).  Only the answers of calls on such keys are left open: a finding
+   on one key excuses nothing on another key. *)
+Record pkst := { pk_sp : spec; pk_dirt : dirt; pk_seen : list needle }.
+Definition pk_init (sp : spec) : pkst := {| pk_sp := sp; pk_dirt := []; pk_seen := [] |}.
+Definition pk_dirt_next (s : pkst) (ev : event) : dirt := dirty_step (pk_dirt s) (pk_seen s) (XBase (snd ev)).
+Definition pk_nxt (s : pkst) (ev : event) : pkst :=
+  {| pk_sp := reg_nxt (pk_sp s) ev; pk_dirt := pk_dirt_next s ev; pk_seen := xseen_next (pk_seen s) (XBase (snd ev)) |}.
+Definition pk_acc (s : pkst) (ev : event) (o : out) : bool :=
+  match dirt_of_keys (pk_dirt_next s ev) (xkeys (XBase (snd ev))) with
+  | Some _ => true
+  | None => reg_acc (pk_sp s) ev o
+  end.
+Definition agrees_pk (st : vol) (s : pkst) : Prop :=
+  forall id c t, dirt_get (pk_dirt s) id = None ->
+    reg_acc (pk_sp s) (t, RawRead id c false) (snd (step st (t, RawRead id c false))) = true.
+Definition agrees_on_pk (fr : final_reads) (s : pkst) : bool :=
+  forallb (fun x => let '(id, c, o) := x in
+                    match dirt_get (pk_dirt s) id with
+                    | Some _ => true
+                    | None => reg_acc (pk_sp s) (0, RawRead id c false) o
+                    end) fr.
+
+(* ---------- what is observed of the volume after the run ---------- *)
+(* one .dat record as ScanVolumeFile reports it: (offset, id, cookie, Size) *)
+Definition rsig := (N * N * N * N)%type.
+Definition rsig_of (r : rec) : rsig := (r_off r, n_id (r_n r), n_cookie (r_n r), r_size r).
+Definition rsig_eqb (a b : rsig) : bool :=
+  let '(a1, a2, a3, a4) := a in let '(b1, b2, b3, b4) := b in (a1 =? b1) && (a2 =? b2) && (a3 =? b3) && (a4 =? b4).
+Record fin_obs := {
+  fo_dat : N;                              (* size of the .dat file *)
+  fo_recs : list rsig;                     (* the records of the .dat file, in file order *)
+  fo_nm : list (N * option (N * Z));       (* needle-map entry (offset, size) of some keys *)
+  fo_reads : final_reads                   (* reads made after the run (clock 0), every field *)
+}.
 Definition nm_entry_eqb (st : vol) (e : N * option (N * Z)) : bool :=
   match nm_get (nm st) (fst e), snd e with
   | None, None => true
   | Some nv, Some (off, size) => (nv_off nv =? off) && (nv_size nv =? size)%Z
   | _, _ => false
   end.
-Definition vol_final (fin_dat : N) (fin_nm : list (N * option (N * Z))) (st : vol) : bool :=
-  (dat_end st =? fin_dat) && forallb (nm_entry_eqb st) fin_nm.
+Definition read_eqb (st : vol) (x : N * N * out) : bool :=
+  let '(id, c, o) := x in out_eqb (snd (step st (0, RawRead id c false))) o.
+Definition vol_final (f : fin_obs) (st : vol) : bool :=
+  (dat_end st =? fo_dat f) && all2 rsig_eqb (map rsig_of (rev (recs st))) (fo_recs f)
+  && forallb (nm_entry_eqb st) (fo_nm f) && forallb (read_eqb st) (fo_reads f).
 
-Definition lin_check_vol (fin_dat : N) (fin_nm : list (N * option (N * Z))) (h : hist) : bool :=
-  lin_check vol_nxt vol_acc init (vol_final fin_dat fin_nm) h.
-Definition lin_check_reg (fr : final_reads) (h : hist) : bool :=
-  lin_check reg_nxt reg_acc spec_init (agrees_on fr) h.
+(* an empty volume / an empty register map, with the two read-only flags as given *)
+Definition init_flags (a b : bool) : vol :=
+  {| recs := []; nm := []; dat_end := 8; no_write_or_delete := a; no_write_can_delete := b |}.
+Definition spec_flags (a b : bool) : spec := {| s_map := []; s_nwod := a; s_nwcd := b |}.
+
+(* the three checkers; a b = noWriteOrDelete / noWriteCanDelete of the volume as loaded *)
+Definition lin_check_vol (a b : bool) (f : fin_obs) (h : hist) : bool :=
+  lin_check vol_nxt vol_acc (init_flags a b) (vol_final f) h.
+Definition lin_check_reg (a b : bool) (fr : final_reads) (h : hist) : bool :=
+  lin_check reg_nxt reg_acc (spec_flags a b) (agrees_on fr) h.
+Definition lin_check_pk (a b : bool) (fr : final_reads) (h : hist) : bool :=
+  lin_check pk_nxt pk_acc (pk_init (spec_flags a b)) (agrees_on_pk fr) h.
 
 (* ---------- the hypotheses of C01's refinement, in an order-independent form ---------- *)
 Definition needles_of (evs : list event) : list needle :=
@@ -148,10 +202,10 @@ Fixpoint pairwise_nc (l : list needle) : bool :=
 Definition conc_ok (evs : list event) : bool :=
   wf_history evs && negb (empty_payload evs) && pairwise_nc (needles_of evs).
 
-(* an empty volume / an empty register map, with the two read-only flags as given *)
-Definition init_flags (a b : bool) : vol :=
-  {| recs := []; nm := []; dat_end := 8; no_write_or_delete := a; no_write_can_delete := b |}.
-Definition spec_flags (a b : bool) : spec := {| s_map := []; s_nwod := a; s_nwcd := b |}.
+(* the finding of C01 a history falls under, independently of any order: 0 = some write has an
+   empty payload, 1 = two writes conflict (same id+cookie+bytes, other metadata or a TTL) *)
+Definition conc_finding (evs : list event) : option N :=
+  if empty_payload evs then Some 0 else if pairwise_nc (needles_of evs) then None else Some 1.
 
 (* ================= Part 2: the machine ================= *)
 
